@@ -133,23 +133,55 @@ def strip_annot(j):
     return j
 
 
+def ser_arguments(a, with_pos=False):
+    """ast.arguments -> JSON of Pfst.Coerce.Arguments: defaults attached to their parameters the way the code pairs them"""
+    def par(p, d=None):
+        return [p.arg, ser_expr(p.annotation, with_pos) if p.annotation is not None else None,
+                ser_expr(d, with_pos) if d is not None else None]
+    pos = list(a.posonlyargs) + list(a.args)
+    dfl = [None] * (len(pos) - len(a.defaults)) + list(a.defaults)
+    npo = len(a.posonlyargs)
+    return {'posonly': [par(p, d) for p, d in zip(pos[:npo], dfl[:npo])],
+            'args': [par(p, d) for p, d in zip(pos[npo:], dfl[npo:])],
+            'vararg': par(a.vararg) if a.vararg else None,
+            'kwonly': [par(p, d) for p, d in zip(a.kwonlyargs, a.kw_defaults)],
+            'kwarg': par(a.kwarg) if a.kwarg else None}
+
+
+def ser_type_params(tps, with_pos=False):
+    out = []
+    for t in tps:
+        if isinstance(t, ast.TypeVar):
+            out.append(['tv', t.name, ser_expr(t.bound, with_pos) if t.bound is not None else None])
+        elif isinstance(t, ast.TypeVarTuple):
+            out.append(['tvt', t.name])
+        else:
+            out.append(['ps', t.name])
+    return out
+
+
 def ser_node(a, lines=None):
     if isinstance(a, ast.pattern):
         return {'p': ser_pattern(a, lines)}
     return {'e': ser_expr(a, lines is not None)}
 
 
-def pure(a):
-    """a deep copy without pfst's `.f` links: what a user's own AST looks like (positions kept)"""
+def pure(a, positions=True):
+    """a deep copy without pfst's `.f` links: what a user's own AST looks like (positions kept unless positions=False)"""
     if isinstance(a, list):
-        return [pure(x) for x in a]
+        return [pure(x, positions) for x in a]
     if not isinstance(a, ast.AST):
         return a
-    kw = {f: pure(getattr(a, f)) for f in a._fields if hasattr(a, f)}
+    kw = {f: pure(getattr(a, f), positions) for f in a._fields if hasattr(a, f)}
     n = a.__class__(**kw)
-    for at in ('lineno', 'col_offset', 'end_lineno', 'end_col_offset'):
-        if hasattr(a, at):
-            setattr(n, at, getattr(a, at))
+    if positions:
+        for at in ('lineno', 'col_offset', 'end_lineno', 'end_col_offset'):
+            if hasattr(a, at):
+                setattr(n, at, getattr(a, at))
+    else:
+        for at in ('lineno', 'col_offset', 'end_lineno', 'end_col_offset'):
+            if at in n.__dict__:
+                del n.__dict__[at]
     return n
 
 
@@ -541,3 +573,102 @@ def odd_patterns():
         MA(None, None), MA(None, '_'), ast.MatchStar(None), ast.MatchStar('_'), ast.MatchSingleton(None), ast.MatchSingleton(True),
         ast.MatchSingleton(1), ast.MatchSequence([]),
     ]
+
+
+# ---------------------------------------------------------------------------------------------------------------------
+# element-class shapes of the container kinds: every positional class alone, every ordered pair, all together, with the
+# name `_` in every position
+
+
+def _combos(classes, sep=', ', free_order=False, wrap=('', ''), names_us=True, last_sep=''):
+    """classes: [(label, template)] in canonical source order; `{n}` in a template is the element's own name.
+    Returns source strings: singles, ordered pairs (both orders if free_order), all; and the same with `_` as the name of
+    one element."""
+    out = []
+
+    def render(idxs, us=None):
+        parts = []
+        for k, i in enumerate(idxs):
+            nm = '_' if us == k else 'abcdefghij'[i] + 'x'
+            parts.append(classes[i][1].replace('{n}', nm))
+        return wrap[0] + sep.join(parts) + (last_sep if parts else '') + wrap[1]
+
+    n = len(classes)
+    sel = [[i] for i in range(n)]
+    for i in range(n):
+        for j in range(n):
+            if i < j or (free_order and i != j):
+                sel.append([i, j])
+    sel.append(list(range(n)))
+    if n > 3:
+        sel.append(list(range(0, n, 2)))
+        sel.append(list(range(1, n, 2)))
+    for idxs in sel:
+        out.append(render(idxs))
+        if names_us:
+            for k in range(len(idxs)):
+                if '{n}' in classes[idxs[k]][1] and (len(idxs) <= 2 or k in (0, len(idxs) - 1)):
+                    out.append(render(idxs, k))
+    seen = set()
+    return [s for s in out if not (s in seen or seen.add(s))]
+
+
+def _arguments_shapes():
+    """posonly / plain / plain=default / *vararg / kwonly / kwonly=default / **kwarg; a bare `*` is inserted when keyword-only
+    parameters come without a vararg"""
+    cl = [('posonly', '{n}, /'), ('plain', '{n}'), ('plain_default', '{n}=1'), ('vararg', '*{n}'), ('kwonly', '{n}'),
+          ('kwonly_default', '{n}=2'), ('kwarg', '**{n}')]
+    out = []
+    n = len(cl)
+    sel = [[i] for i in range(n)] + [[i, j] for i in range(n) for j in range(i + 1, n)] + [list(range(n)), [1, 3, 4], [1, 3, 4, 6],
+                                                                                          [1, 1, 3, 4, 4], [0, 1, 3, 5, 6], [3, 4, 4]]
+    for idxs in sel:
+        for us in [None] + list(range(len(idxs))):
+            parts = []
+            star = False
+            for k, i in enumerate(idxs):
+                nm = '_' if us == k else 'abcdefghij'[k] + 'x'
+                if i == 3:
+                    star = True
+                if i in (4, 5) and not star:
+                    parts.append('*')
+                    star = True
+                parts.append(cl[i][1].replace('{n}', nm))
+            out.append(', '.join(parts))
+    out += ['a: int', 'a: int, *b, c: str, **d', '*a: int', '**k: int', 'a: int = 1', 'a, b: c.d, *, e: f = g']
+    seen = set()
+    return [s for s in out if not (s in seen or seen.add(s))]
+
+
+def container_shapes():
+    """kind -> (parse mode, [sources]); sources that do not parse in the mode are skipped by the evaluator"""
+    elt = [('name', '{n}'), ('const', '1'), ('starred', '*{n}'), ('seq', '[{n}, 2]'), ('call', 'f({n})'), ('attr', '{n}.b'),
+           ('dict', '{1: {n}}'), ('paren', '({n})')]
+    al = [('pos', '{n}'), ('starred', '*{n}'), ('kw', '{n}=v'), ('dstar', '**{n}'), ('posseq', '[{n}, 1]')]
+    pa = [('capture', '{n}'), ('value', '1'), ('seq', '[{n}, 2]'), ('cls', 'C({n})'), ('kw', '{n}=p'), ('kw2', 'z=[{n}]')]
+    d = {
+        'arguments': ('arguments', _arguments_shapes()),
+        '_type_params': ('_type_params', _combos([('tv', '{n}'), ('bound', '{n}: int'), ('tvt', '*{n}'), ('ps', '**{n}')], free_order=True)),
+        '_arglikes': ('_arglikes', _combos(al, free_order=True)),
+        'Call': ('Call', _combos(al, free_order=True, wrap=('f(', ')'))),
+        '_aliases': ('_aliases', _combos([('plain', '{n}'), ('dotted', '{n}.b'), ('as', 'm as {n}'), ('dotted_as', 'm.o as {n}')], free_order=True)),
+        '_withitems': ('_withitems', _combos([('plain', '{n}'), ('as', 'f(1) as {n}'), ('call', 'f({n})'), ('as_tuple', 'g as ({n}, q)'),
+                                              ('as_attr', 'h as {n}.a')])),
+        '_decorator_list': ('_decorator_list', _combos([('name', '@{n}'), ('attr', '@{n}.b'), ('call', '@c({n})'), ('callkw', '@c(k={n})')],
+                                                       sep='\n', free_order=True)),
+        '_Assign_targets': ('_Assign_targets', _combos([('name', '{n}'), ('attr', '{n}.b'), ('sub', '{n}[0]'), ('tuple', '{n}, q'),
+                                                        ('star', '*{n}, r'), ('list', '[{n}, s]')], sep=' = ', last_sep=' =')),
+        '_comprehension_ifs': ('_comprehension_ifs', _combos([('name', 'if {n}'), ('cmp', 'if {n} < 1'), ('call', 'if f({n})'),
+                                                              ('paren', 'if ({n})')], sep=' ', free_order=True)),
+        '_pattern_attrlikes': ('_pattern_attrlikes', _combos(pa)),
+        'MatchClass': ('pattern', _combos(pa, wrap=('C(', ')'))),
+        'MatchSequence': ('pattern', _combos([('capture', '{n}'), ('value', '1'), ('star', '*{n}'), ('seq', '[{n}, 2]'), ('map', '{1: {n}}'),
+                                              ('cls', 'C({n})'), ('or', '{n}x | 2')], wrap=('[', ']'))),
+        'MatchMapping': ('pattern', _combos([('const', '1: {n}'), ('attr', 'a.b: [{n}]'), ('neg', '-1: C({n})'), ('rest', '**{n}')], wrap=('{', '}'))),
+        'List': ('List', _combos(elt, wrap=('[', ']'))),
+        'Tuple': ('Tuple', _combos(elt, wrap=('(', ')'), last_sep=',')),
+        'Set': ('Set', _combos(elt[:6], wrap=('{', '}'))),
+        'Dict': ('Dict', _combos([('const', '1: {n}'), ('attr', 'a.b: [{n}]'), ('neg', '-1: f({n})'), ('name', 'k: {n}'), ('rest', '**{n}')],
+                                 wrap=('{', '}'))),
+    }
+    return d
